@@ -285,6 +285,14 @@ fn constructed(t: &mut Tape, obs: &mut Obs) -> R {
             let m = (ch.rand_time(), ch.rand_bytes(), ch.version().0, ch.random(), ch.session_id(), ch.ext(), ch.ciphers().len(), ch.comp().len(), ch.cipher_suites().len());
             let f = (ClientHello::rand_time(&ch), ClientHello::rand_bytes(&ch), ClientHello::version(&ch).0, ClientHello::random(&ch), ClientHello::session_id(&ch), ClientHello::ext(&ch), ClientHello::ciphers(&ch).len(), ClientHello::comp(&ch).len(), ClientHello::cipher_suites(&ch).len());
             let d = (via_dyn.rand_time(), via_dyn.rand_bytes(), via_dyn.version().0, via_dyn.random(), via_dyn.session_id(), via_dyn.ext(), via_dyn.ciphers().len(), via_dyn.comp().len(), via_dyn.cipher_suites().len());
+            // ... and through a reference to a reference (closure arguments of iter().filter / find / max_by_key on a slice of hellos
+            // have this shape): auto-deref reaches the same impl today; an `impl ClientHello for &T` would be picked here first
+            let rr = &&ch;
+            let r2 = (rr.rand_time(), rr.rand_bytes(), rr.version().0, rr.random(), rr.session_id(), rr.ext(), rr.ciphers().len(), rr.comp().len(), rr.cipher_suites().len());
+            ensure!(r2 == m, "C15:constructed:dispatch-through-reference", "the accessors of one ClientHello answer differently through `&&hello`: version {:#06x} vs {:#06x}, session id {:?} vs {:?}, ext {:?} vs {:?}", r2.2, m.2, r2.4.map(|x| x.len()), m.4.map(|x| x.len()), r2.5.map(|x| x.len()), m.5.map(|x| x.len()));
+            let hellos = [&ch];
+            let picked = hellos.iter().filter(|h| h.ext().map(|e| e.len()) == ext.as_ref().map(|e| e.len()) && h.session_id().map(|e| e.len()) == sid.as_ref().map(|e| e.len())).count();
+            ensure!(picked == 1, "C15:constructed:dispatch-through-reference", "iter().filter(|h| h.ext() .. h.session_id() ..) over a slice holding the hello does not see the hello's own extension block / session id");
             ensure!(m == f && f == d, "C15:constructed:dispatch", "the accessors of one ClientHello (random of {} bytes: {}) answer differently by method syntax, by trait path and through a trait object: {:?} / {:?} / {:?}", random.len(), hex_short(&random), (m.0, m.1.len(), m.2), (f.0, f.1.len(), f.2), (d.0, d.1.len(), d.2));
         }
         // the public fields of a constructed value may be edited, and its vectors may have spare capacity: the accessors follow the
